@@ -30,7 +30,7 @@ PROPS = {
     'C02': dict(
         level='exploration', flavours=fl(['debug', 'fastrel', 'asan'], ['debug', 'fastrel', 'asan', 'miri']),
         rule="as C01; the ε-copy result is walked by glue typed with the documented substitution (rustc checks the type), "
-             "compared with the original value and with the full-copy result of the same bytes; buffer base 4096-aligned, "
+             "compared with the original value and with the full-copy result of the same bytes; buffer base 256-aligned, "
              "exactly stream-sized; distinct = (root, value shape) with non-empty payload",
         floors=fl({'roots': 700, 'evaluations': 20000, 'borrowed_parts_walked': 5000}, {'roots': 700, 'evaluations': 200000}),
         assumptions=COMMON_ASSUME + ["types whose alignment unit is not a power of two (known finding under C07) are judged by C07 only"]),
@@ -91,6 +91,7 @@ PROPS = {
         floors=fl({'failed_loads': 200, 'probe_programs': 20}, {'failed_loads': 2000}),
         assumptions=COMMON_ASSUME + ["'all safe client programs' is represented by a finite probe family per access path"]),
     'C10': dict(
+        scale={'quick': 4, 'thorough': 8},
         level='fault_enumeration', flavours=fl(['debug', 'fastrel'], ['debug', 'fastrel']), exhaustive=True,
         rule="for every root x value: all 232 single-bit flips of the 29 fixed header bytes, the byte-reversed cookie, minor versions "
              "{0,1,2,3,255,256,257,0x7fff,0x8000,65534,65535} (all 65536 for two roots per shard in the thorough tier), major values; "
@@ -99,6 +100,7 @@ PROPS = {
         floors=fl({'bit_flips': 150000, 'errors_seen': 7}, {'bit_flips': 600000}),
         assumptions=COMMON_ASSUME),
     'C11': dict(
+        scale={'quick': 4, 'thorough': 8},
         level='fault_enumeration', flavours=fl(['debug', 'fastrel', 'asan'], ['debug', 'fastrel', 'asan', 'valgrind']), exhaustive=True,
         rule="every cut point k in [0, len) of every stream (root x values): deserialize_full(prefix) must be ReadError; "
              "deserialize_eps of a heap block of exactly k bytes must fail (error or bounds panic) - any over-read is an ASan/valgrind "
@@ -106,6 +108,7 @@ PROPS = {
         floors=fl({'cut_points': 100000, 'cut_regions': 6}, {'cut_points': 400000}),
         assumptions=COMMON_ASSUME),
     'C12': dict(
+        scale={'quick': 4, 'thorough': 8}, miri={'quick': (64, 16, 1), 'thorough': (32, 16, 1)},
         level='exploration', flavours=fl(['debug', 'fastrel', 'asan'], ['debug', 'fastrel', 'asan', 'miri']), exhaustive=True,
         rule="every root x values x all 128 placements (stream copied to base+r, base 128-aligned, block of exactly r+len bytes): "
              "Ok iff every block encountered lands on a multiple of its unit (model), else AlignmentError; on Ok value equal and every "
@@ -113,6 +116,7 @@ PROPS = {
         floors=fl({'evaluations': 300000, 'refused_with_alignment_error': 50000}, {'evaluations': 1000000}),
         assumptions=COMMON_ASSUME),
     'C13': dict(
+        scale={'quick': 4, 'thorough': 8},
         level='fault_enumeration', flavours=fl(['debug', 'fastrel', 'asan'], ['debug', 'fastrel', 'asan', 'valgrind']), exhaustive=True,
         rule="every root x values and every borrowed source (&[T], SerIter, Holder<&[T]>, Holder<SerIter>, nested) x 37 element types: "
              "writer failing at every byte position k in [0,len] (error and Ok(0)), flush failure, 7 short-write / Interrupted "
@@ -121,12 +125,14 @@ PROPS = {
         floors=fl({'fault_positions': 300000, 'seq_fault_positions': 50000, 'borrowed_sources': 5}, {'fault_positions': 1000000}),
         assumptions=COMMON_ASSUME + ["protected-block monitor: a dealloc of a registered block is recorded and skipped by the tracking allocator"]),
     'C14': dict(
+        scale={'quick': 4, 'thorough': 8}, miri={'quick': (64, 16, 1), 'thorough': (32, 16, 1)},
         level='fault_enumeration', flavours=fl(['debug', 'fastrel', 'asan'], ['debug', 'fastrel', 'asan', 'miri']), exhaustive=True,
         rule="every root x values: 8 chunking patterns (1/2/7-byte, prime cycle, random, Interrupted interleavings) must give the same "
              "value; reader failing at every k in [0,len) (plain and chunked) must give ReadError without panic; distinct = (root, value shape)",
         floors=fl({'fault_positions': 150000, 'chunk_patterns': 15000}, {'fault_positions': 600000}),
         assumptions=COMMON_ASSUME + ["leaks of partially built arrays on failure are by design and not judged"]),
     'C15': dict(
+        scale={'quick': 4, 'thorough': 8},
         level='fault_enumeration', flavours=fl(['debug', 'fastrel'], ['debug', 'fastrel', 'asan']), exhaustive=True,
         rule="every tag occurrence in every stream (root x values; all variants forced): one-byte tags overwritten with all foreign "
              "values of 0..=255, pointer-width variant indices with n, n+1, n+2, 255, 256, 2^32-1, 2^32, 2^63, 2^64-2, 2^64-1; both "
